@@ -117,6 +117,20 @@ def case_recipe(G, espec, rng, nmods, annotate=False, refs=False, rotate=True, s
             if refs and spec.get("refs"):
                 # at least one cited feature inside the retained fragment of every input that has references
                 spec["feats"].append(cited_inside(spec, (fs + k) % len(s), fl, rng, len(spec["refs"])))
+            if fl >= 5 and rng.random() < 0.25:
+                # a join inside the retained fragment whose two parts lie on different strands
+                a1 = (fs + k + rng.randint(0, 1)) % len(s)
+                a2 = (fs + k + rng.randint(3, fl - 2)) % len(s)
+                if a1 + 2 <= len(s) and a2 + 1 <= len(s):
+                    spec["feats"].append({"type": "misc_feature", "strand": 1, "parts": [[a1, a1 + 2, rng.choice([1, -1])], [a2, a2 + 1, rng.choice([1, -1, None])]],
+                                          "quals": {"label": ["mixed%d" % rng.randrange(1000)]}})
+            if rng.random() < 0.2:
+                # a hand-made, strandless `source` annotation of exactly the stretch that is retained (a chimeric construct
+                # described segment by segment)
+                a = (fs + k) % len(s)
+                if a + fl <= len(s):
+                    spec["feats"].append({"type": "source", "strand": None, "parts": [[a, a + fl]],
+                                          "quals": {"label": ["segment"], "organism": ["Escherichia coli"]}})
             if fl >= 2 and rng.random() < 0.3:
                 # a site between two bases ("34^35", e.g. a cleavage site): strictly inside the retained fragment
                 a = (fs + k + rng.randint(1, fl - 1)) % len(s)
